@@ -3,6 +3,7 @@ reference state machine, TLC-generated position families replayed into the real 
 randomized / search-shaped traces of the real Game validated by TraceGame.tla."""
 import json
 import os
+import time
 import shutil
 
 import core
@@ -70,10 +71,23 @@ def bounds_panic(fail):
 def judge_traces(run, jobs, props, spec="TraceGame", panic_filter=None):
     """jobs: list of (trace path, description).  Validates each with TLC (in parallel) and
     attributes FAIL judgements: those in `props` (plus PANIC) to this run's property."""
+    budget = float(os.environ.get("VERIF_BUDGET_S", "2400" if run.tier == "thorough" else "1e9"))
+
     def one(job):
         path, desc = job
+        if time.time() - run.t0 > budget:
+            return job, None          # wall-clock budget of the run used up: not judged, and counted as such
         return job, core.tlc_trace(path, spec=spec)
+    if len(jobs) > 1:
+        # a deterministic mix of the trace kinds, so that a run that hits its budget has covered some of each
+        import hashlib
+        jobs = sorted(jobs, key=lambda j: hashlib.md5(os.path.basename(j[0]).encode()).hexdigest())
     results = core.pmap(one, jobs)
+    skipped = [job for job, res in results if res is None]
+    if skipped:
+        run.cov["traces_not_judged_time_budget"] = run.cov.get("traces_not_judged_time_budget", 0) + len(skipped)
+        run.notes.append("wall-clock budget (%d s, VERIF_BUDGET_S) reached: %d of %d recorded traces were not judged" % (budget, len(skipped), len(jobs)))
+    results = [(job, res) for job, res in results if res is not None]
     for (path, desc), res in results:
         run.cov["traces_validated_against_impl"] += 1
         run.cov["events_validated"] += res["events"]
